@@ -117,6 +117,15 @@ def gen_evolve2d(rng, tier):
             if call['memo'] not in _MODE2:
                 continue
             yield {'kind': 'evolve2d/%s/%s/%s' % (kind, call['ty'], _MODE2[call['memo']]), 'dim': 'evolve2d', 'call': call}
+        if c.get('share_rule'):
+            # "within one call": the observed call is preceded, in the same process and with the SAME rule object, by
+            # another call (the same one repeated / one with another neighbourhood type or radius); a cache that
+            # survives a call makes the observed call enter the rule less often than once per distinct content
+            a, b = c['calls'][0], c['calls'][1]
+            for prior, call in ((a, a), (a, b)):
+                if call['memo'] in _MODE2 and prior['memo'] in _MODE2:
+                    yield {'kind': 'evolve2d/shared_rule/%s/%s' % (call['ty'], _MODE2[call['memo']]), 'dim': 'evolve2d',
+                           'call': call, 'prior': [prior]}
 
 
 def _filled(vals, mask):
@@ -129,6 +138,12 @@ def run_evolve2d(c):
     call = c['call']
     ca = np.array(call['hist'], dtype=np.dtype(call['dtype']))
     rule = Logged2(make_rule(call['rule'], dim=2))
+    for pc in c.get('prior', []):          # earlier calls of the same process with the same rule object
+        pca = np.array(pc['hist'], dtype=np.dtype(pc['dtype']))
+        call_impl(lambda: cpl.evolve2d(pca, timesteps=g2._timesteps(pc['ts']), apply_rule=rule, r=pc['r'],
+                                       neighbourhood='Moore' if pc['ty'] == 'moore' else 'von Neumann',
+                                       memoize=g2.OPTIONS[pc['memo']][0]()))
+    rule.log = []
     nb = 'Moore' if call['ty'] == 'moore' else 'von Neumann'
     res = call_impl(lambda: cpl.evolve2d(ca, timesteps=g2._timesteps(call['ts']), apply_rule=rule, r=call['r'],
                                          neighbourhood=nb, memoize=g2.OPTIONS[call['memo']][0]()))
